@@ -18,11 +18,12 @@ pub fn piv_small(s: &mut Src) -> R {
         *x = if k.abs() > 3 { 0 } else { k };
     }
     let t = s.small(0, 1);
-    let c = s.small(0, 2);
+    let c = s.small(0, 4);
     reach!();
     let a = SpMat::from_dense_data((m, n), data.clone());
     let piv_type = if t == 0 { PivotType::Rows } else { PivotType::Cols };
-    let cond = match c { 0 => PivotCondition::One, 1 => PivotCondition::AnyUnit, _ => PivotCondition::Weight(1.0) };
+    // (over Z a unit of weight <= w is +-1 for every w >= 1: a larger bound must not admit the non-units 2, 3)
+    let cond = match c { 0 => PivotCondition::One, 1 => PivotCondition::AnyUnit, 2 => PivotCondition::Weight(1.0), 3 => PivotCondition::Weight(2.0), _ => PivotCondition::Weight(3.5) };
     let pivs = find_pivots(&a, piv_type, cond);
     let r = pivs.len();
     for (k, &(i, j)) in pivs.iter().enumerate() {
